@@ -363,6 +363,15 @@ class Summaries:
             return mk(name, a[0], a[1])
         if tp == "core::iter::Iterator::fold":
             return self.fold(ctx, a[0], a[1], a[2])
+        if tp == "core::iter::Iterator::try_fold" and a[2].op == "closure":
+            # fold with early exit: the step yields Ok/Some(next accumulator) or the residual that ends the fold
+            item = I.fresh("item")
+            accs = I.fresh("acc")
+            r_ = I.apply_fn(a[2], [accs, item], ctx.e, ctx.env, ctx.fr)
+            step = r_[0] if r_ is not None else mk("bottom")
+            tf = mk("try_fold_t", a[0], item, accs, a[1], step)
+            ctx.effect("loop", tf)
+            return tf
         if tp in ("core::iter::Iterator::sum", "core::iter::Iterator::product") and False:
             return NotImplemented
         if tp in ("ark_ff::vec::Vec::<T>::new", "alloc::vec::Vec::<T>::new", "hashbrown::HashMap::<K, V>::new"):
@@ -443,26 +452,6 @@ class Summaries:
             return is_variant(a[0], "Ok")
         if tp == "core::result::Result::<T, E>::is_err":
             return is_variant(a[0], "Err")
-        if tp in ("core::option::Option::<T>::map", "core::result::Result::<T, E>::map"):
-            okv = "Some" if "option" in tp else "Ok"
-            c = is_variant(a[0], okv)
-            if c is FALSE:
-                return a[0]
-            r = I.apply_fn(a[1], [payload(a[0], okv, 0)], ctx.e, ctx.env, ctx.fr)
-            if r is None:
-                return None
-            ctx.env = r[1]
-            other = variant("None") if okv == "Some" else variant("Err", payload(a[0], "Err", 0))
-            return ite(c, variant(okv, r[0]), other)
-        if tp == "core::result::Result::<T, E>::map_err":
-            c = is_variant(a[0], "Err")
-            if c is FALSE:
-                return a[0]
-            r = I.apply_fn(a[1], [payload(a[0], "Err", 0)], ctx.e, ctx.env, ctx.fr)
-            if r is None:
-                return None
-            ctx.env = r[1]
-            return ite(c, variant("Err", r[0]), variant("Ok", payload(a[0], "Ok", 0)))
         # ---- Option / Result / bool combinators (closures are applied under the condition in which they run) ----
         def under(cond, fn, args):
             env0 = dict(ctx.env)
@@ -471,6 +460,11 @@ class Summaries:
             r_ = I.apply_fn(fn, args, ctx.e, env0, ctx.fr)
             if r_ is None:
                 return None
+            for k_, v_ in r_[1].items():
+                if k_ != "$pc" and v_ is not env0.get(k_):
+                    old_ = ctx.env.get(k_)
+                    ctx.env = dict(ctx.env)
+                    ctx.env[k_] = v_ if (cond is TRUE or old_ is None) else ite(cond, v_, old_)
             return r_[0]
         m_ = re.match(r"core::(option::Option::<T>|result::Result::<T, E>)::(\w+)$", tp)
         if m_:
@@ -486,6 +480,17 @@ class Summaries:
                     return x
                 r_ = under(c, a[1], [good])
                 return None if r_ is None else ite(c, r_, bad)
+            if meth == "map":
+                if c is FALSE:
+                    return x
+                r_ = under(c, a[1], [good])
+                return None if r_ is None else ite(c, variant(okv, r_), bad)
+            if meth == "map_err" and not is_opt:
+                ce = not_(c)
+                if ce is FALSE:
+                    return x
+                r_ = under(ce, a[1], [payload(x, "Err", 0)])
+                return None if r_ is None else ite(c, variant("Ok", good), variant("Err", r_))
             if meth == "or_else":
                 if c is TRUE:
                     return x
